@@ -45,9 +45,9 @@ func C15(c *core.Ctx) {
 				}
 				return 0, 0
 			}}
-			g := core.Gate(fn, []ssa.Instruction{in}, neg(notDone))
+			g := core.GateDeep(fn, []ssa.Instruction{in}, neg(notDone))
 			c.Decide(g.OK && g.PassEdges > 0, "R15.1", "complete-once:"+core.FuncName(fn), c.Pos(in), "complete=true is stored only on the edge asserting !complete", core.FuncName(fn)+" can mark a ConsumeState complete although it already is: the callback reports completion (or an error) a second time")
-			fr := core.MustFollow(fn, core.After(in), func(x ssa.Instruction) bool {
+			fr := core.MustFollowDeep(fn, core.After(in), func(x ssa.Instruction) bool {
 				cl, ok := x.(*ssa.Call)
 				if !ok || cl.Call.IsInvoke() || cl.Call.StaticCallee() != nil {
 					return false
@@ -88,7 +88,7 @@ func C15(c *core.Ctx) {
 				}
 			}
 		})
-		g := core.Gate(hd, eff, neg(done))
+		g := core.GateDeep(hd, eff, neg(done))
 		c.Decide(len(eff) >= 4 && g.OK && g.PassEdges > 0, "R15.1", "no-effect-after-completion", p.Pos(hd.Pos()), fmt.Sprintf("%d state updates / callback invocations are all behind the !complete gate", len(eff)), "handleData can update a completed ConsumeState or invoke its callback again (late or duplicate segment after completion)")
 	}
 
@@ -396,8 +396,8 @@ func C15(c *core.Ctx) {
 				}
 				return 0, 0
 			}}
-			g1 := core.Gate(hd, []ssa.Instruction{s.Instr}, neg(tooBig))
-			g2 := core.Gate(hd, []ssa.Instruction{s.Instr}, neg(negIdx))
+			g1 := core.GateDeep(hd, []ssa.Instruction{s.Instr}, neg(tooBig))
+			g2 := core.GateDeep(hd, []ssa.Instruction{s.Instr}, neg(negIdx))
 			c.Decide(g1.OK && g1.PassEdges > 0 && g2.OK && g2.PassEdges > 0, "R15.3", fmt.Sprintf("segment-index-bounded#%d", n), c.Pos(s.Instr), "content[seg] only when 0 ≤ seg < segCnt", "the segment number taken from a Data name indexes the content buffer without 0 ≤ seg < segCnt having been established (panic on a crafted or stale segment)")
 		}
 		c.Floor("R15.3", "content index sites with a name-derived index", n, 1)
@@ -423,7 +423,7 @@ func C15(c *core.Ctx) {
 			}
 			return 0, 0
 		}}
-		g := core.Gate(hd, makes, neg(over))
+		g := core.GateDeep(hd, makes, neg(over))
 		c.Decide(len(makes) > 0 && g.OK && g.PassEdges > 0, "R15.3", "segment-count-bounded-before-alloc", p.Pos(hd.Pos()), "the content buffer is allocated only when segCnt is within maxObjectSeg", "the content buffer is allocated from a FinalBlockId-derived count without an upper bound")
 	}
 }
